@@ -11,7 +11,7 @@ mkdir -p "$wt/seeddemo/$n"
 for f in "$src"/*; do case "$f" in *patch.diff|*README.md|*.log|*.txt) ;; *) cp -r "$f" "$wt/seeddemo/$n/";; esac; done
 cd "$wt"
 res_clean=$(go test -vet=off -count=1 -timeout 300s ./seeddemo/$n/... >/tmp/sv-$$.clean 2>&1; echo $?)
-if ! git apply "$src/patch.diff"; then echo "RESULT $prop $n patch-does-not-apply"; cd /; git -C /repo worktree remove --force "$wt"; exit 1; fi
+if ! git apply "$src/patch.diff" 2>/dev/null && ! git apply -3 "$src/patch.diff"; then echo "RESULT $prop $n patch-does-not-apply"; cd /; git -C /repo worktree remove --force "$wt"; exit 1; fi
 build=$(go build ./pkg/... ./cmd/bb_worker ./cmd/bb_scheduler >/tmp/sv-$$.build 2>&1; echo $?)
 base=$(go test -vet=off -count=1 ./pkg/filesystem/access ./pkg/scheduler/invocation ./pkg/scheduler/platform >/tmp/sv-$$.base 2>&1; echo $?)
 res_patch=$(go test -vet=off -count=1 -timeout 300s ./seeddemo/$n/... >/tmp/sv-$$.patch 2>&1; echo $?)
